@@ -34,3 +34,51 @@ pub fn std_assumptions(rep: &mut Report) {
     rep.assumptions.push("biodivine-lib-bdd (eval_in, support_set, BDD equality) and biodivine-lib-param-bn's aeon parser are trusted; the transition systems themselves are re-derived independently and cross-checked (unit colours, update functions, witness networks) before any verdict".into());
     rep.assumptions.push("the explicit-state oracle is written against the property text and passes its own duality/fixed-point self-laws on every network of this run".into());
 }
+
+/// Bind the de-duplicated `N_all2` family. `per_bucket`: keep at most that many networks per
+/// (number of valid colours, constrained?) bucket (None = all). Networks the library rejects are
+/// dropped; a binding mismatch is a machinery failure.
+pub fn all2_nets(k: u16, per_bucket: Option<usize>) -> Result<(Vec<Arc<Bound>>, serde_json::Value), String> {
+    use rayon::prelude::*;
+    use std::collections::{BTreeMap, HashSet};
+    let specs = crate::nets::all2_specs();
+    let texts = specs.len();
+    let sigs: Vec<Option<(Vec<Vec<Vec<usize>>>, bool)>> = specs.par_iter().map(crate::nets::signature).collect();
+    let mut seen = HashSet::new();
+    let mut chosen: Vec<&NetSpec> = vec![];
+    let mut with_colours = 0;
+    let mut buckets: BTreeMap<(usize, bool), usize> = BTreeMap::new();
+    for (s, sig) in specs.iter().zip(sigs.into_iter()) {
+        if let Some(sig) = sig {
+            with_colours += 1;
+            let key = (sig.0.len(), sig.1);
+            if seen.insert(sig) {
+                let c = buckets.entry(key).or_insert(0);
+                if per_bucket.map(|m| *c < m).unwrap_or(true) {
+                    *c += 1;
+                    chosen.push(s);
+                }
+            }
+        }
+    }
+    let distinct = seen.len();
+    let bound: Vec<Result<Option<Bound>, String>> = chosen
+        .par_iter()
+        .enumerate()
+        .map(|(i, s)| match Bound::new(&format!("all2#{i}"), s, k) {
+            Ok(b) => Ok(Some(b)),
+            Err(BindError::Rejected(_)) => Ok(None),
+            Err(BindError::Mismatch(e)) => Err(e),
+        })
+        .collect();
+    let mut out = vec![];
+    let mut rejected = 0;
+    for b in bound {
+        match b? {
+            Some(b) => out.push(Arc::new(b)),
+            None => rejected += 1,
+        }
+    }
+    let info = serde_json::json!({"grammar_texts": texts, "with_a_valid_colour": with_colours, "distinct_coloured_transition_systems": distinct, "selected": chosen.len(), "rejected_by_library": rejected, "bound": out.len()});
+    Ok((out, info))
+}
